@@ -622,7 +622,13 @@ func (d *partialDoc) add(key string, val *lazyNode, options *ApplyOptions) error
 
 func (d *partialDoc) get(key string, options *ApplyOptions) (*lazyNode, error) {
 	if key == "" {
-		return d.self, nil
+		// A fresh node each time: handing out d.self itself lets a move link it
+		// into the document it describes, and lets path traversal turn it into a
+		// parsed container, which together make the document cyclic.
+		if d.self == nil {
+			return nil, nil
+		}
+		return newLazyNode(d.self.raw), nil
 	}
 
 	if d.obj == nil {
@@ -723,7 +729,10 @@ func (d *partialArray) add(key string, val *lazyNode, options *ApplyOptions) err
 
 func (d *partialArray) get(key string, options *ApplyOptions) (*lazyNode, error) {
 	if key == "" {
-		return d.self, nil
+		if d.self == nil {
+			return nil, nil
+		}
+		return newLazyNode(d.self.raw), nil
 	}
 
 	idx, err := strconv.Atoi(key)
